@@ -13,6 +13,12 @@ use std::time::Instant;
 
 pub const VERIF_ROOT: &str = "/verif";
 
+/// where evidence and replay files go: /verif, unless VERIF_OUT names a scratch directory
+/// (used only when a check is tried against a mutated scratch copy of the subject)
+pub fn out_root() -> String {
+  std::env::var("VERIF_OUT").unwrap_or_else(|_| VERIF_ROOT.to_string())
+}
+
 #[derive(Clone, Debug)]
 pub struct Args {
   pub tier: String,
@@ -158,7 +164,7 @@ impl Reporter {
   /// Write evidence, print verdict lines, exit.
   pub fn finish(self, level: &str, mut coverage: Value, assumptions: Vec<String>) -> ! {
     let groups = self.groups.lock().unwrap();
-    let dir = format!("{VERIF_ROOT}/replays/{}", self.prop);
+    let dir = format!("{}/replays/{}", out_root(), self.prop);
     let _ = std::fs::create_dir_all(&dir);
     let mut unknown = 0u64;
     let mut unknown_classes = 0u64;
@@ -210,7 +216,7 @@ impl Reporter {
       "wall_s": wall,
       "violations": unknown,
     });
-    let evdir = format!("{VERIF_ROOT}/evidence");
+    let evdir = format!("{}/evidence", out_root());
     let _ = std::fs::create_dir_all(&evdir);
     let evpath = format!("{evdir}/{}.json", self.prop);
     std::fs::write(&evpath, serde_json::to_string_pretty(&ev).unwrap())
